@@ -177,6 +177,12 @@ type VP8Encoder struct {
 	// Rate control state (for target-size encoding).
 	rateCtrl *passStats
 
+	// probaRefreshed records that refreshProbas changed the coefficient
+	// probabilities after the first token of the current pass was recorded:
+	// those tokens carry the older probabilities and must be recorded again
+	// before the frame is emitted.
+	probaRefreshed bool
+
 	// Pre-allocated temporary buffers for hot encode loops (avoid heap escapes).
 	// These buffers are reused across macroblock iterations since encoding is
 	// single-threaded. Eliminates ~80% of heap allocations in the encode path.
@@ -417,6 +423,7 @@ func (enc *VP8Encoder) resetForReuse(cfg EncodeConfig, width, height int) {
 	enc.numSkip = 0
 	enc.maxI4HeaderBits = 0
 	enc.rateCtrl = nil
+	enc.probaRefreshed = false
 	enc.nzCounts = [NumMBSegments][9]int{}
 	enc.stats = EncStats{}
 	enc.filterHdr = FilterHeader{}
@@ -1361,6 +1368,7 @@ func (enc *VP8Encoder) EncodeFrame() ([]byte, error) {
 	var stats ProbaStats
 	for pass := 0; ; pass++ {
 		enc.tokens.Reset()
+		enc.probaRefreshed = false
 		if useParallel {
 			enc.encodeFrameParallel(&stats)
 		} else {
@@ -1384,8 +1392,11 @@ func (enc *VP8Encoder) EncodeFrame() ([]byte, error) {
 		// Serial path: collect stats separately (not merged into encodeFrame).
 		enc.collectAllStats(&stats)
 	}
-	if optimizeProba(&stats, &enc.proba) > 0 {
-		// Re-record tokens with optimized probabilities.
+	if optimizeProba(&stats, &enc.proba) > 0 || enc.probaRefreshed {
+		// Re-record tokens with the final probabilities. This is also needed
+		// when the final optimization changes nothing but a mid-stream refresh
+		// did: the tokens recorded before that refresh carry older values than
+		// the table the header announces.
 		enc.rerecordAllTokens()
 	}
 
